@@ -47,7 +47,7 @@ func (e *Exec) lookup(fr *frame, in *ssa.Lookup) Value {
 		if !t.Const {
 			e.fail("symbolic string index")
 		}
-		return VInt{BVu(8, uint64(s.S[t.U.Int64()]))}
+		return VInt{byteC(uint64(s.S[t.U.Int64()]))}
 	}
 	m := x.(VMap).M
 	elemT := in.X.Type().Underlying().(*types.Map).Elem()
